@@ -69,6 +69,7 @@ class GibbsState:
         self.kind = z3.Function("kind", I_, I_)
         self.lo = z3.Function("lo", I_, R_)
         self.w = z3.Function("w", I_, R_)
+        self.nn = z3.Function("nn", I_, z3.BoolSort())          # the non-negativity switch of parameter j
         self.tc = z3.Function("tc", I_, I_)
         self.mt = z3.Function("mt", I_, I_)
         self.x_last = z3.Const("x_last", ARR)
@@ -77,6 +78,11 @@ class GibbsState:
         c.add_forall((d,), lambda j: Sf(S.z(j), n1) == xl[S.z(j)], "x_last")
         c.defs.append(self.Pf(n1) == self.beta.e * F(xl))
         c.add_forall((d,), lambda j: z3.And(kind(S.z(j)) >= 0, kind(S.z(j)) <= 2), "kind-range")
+        # class invariant of Parameter (C04.parameter_state_machine): the absolute-value proposal is selected exactly when
+        # the switch is on and no boundaries are set; the plain proposal only when the switch is off
+        nn = self.nn
+        c.add_forall((d,), lambda j: z3.And(z3.Implies(kind(S.z(j)) == 1, nn(S.z(j))),
+                                            z3.Implies(kind(S.z(j)) == 0, z3.Not(nn(S.z(j))))), "kind-vs-switch")
         c.add_forall((d,), lambda j: self.limits_ok(S.z(j), xl[S.z(j)]), "limits-at-entry")
         c.add_forall((d,), lambda j: z3.Implies(kind(S.z(j)) == 2, w(S.z(j)) > 0), "width>0")
         self.rng = RngModel("chain.rng")
@@ -85,6 +91,7 @@ class GibbsState:
             "samples": lambda j: SymList(N, lambda t: Sym(Sf(S.z(j), S.z(t)))),
             "sigma": lambda j: Sym(self.sig(S.z(j))),
             "proposal": lambda j: Sym(kind(S.z(j))),
+            "_non_negative": lambda j: Sym(self.nn(S.z(j))),
             "lower": lambda j: Sym(lo(S.z(j))),
             "width": lambda j: Sym(w(S.z(j))),
             "upper": lambda j: Sym(lo(S.z(j)) + w(S.z(j))),
@@ -100,9 +107,12 @@ class GibbsState:
 
     def limits_ok(self, j, v):
         """the limits in force on parameter j hold for value v (z3 terms)"""
-        kind, lo, w = self.kind, self.lo, self.w
+        kind, lo, w, nn = self.kind, self.lo, self.w, self.nn
+        # boundaries in force: inside the box; non-negativity switch on: >= 0 -- BOTH when both are in force (as long as the
+        # two are compatible, i.e. the box reaches above zero)
         return z3.And(z3.Implies(kind(j) == 2, z3.And(lo(j) <= v, v <= lo(j) + w(j))),
-                      z3.Implies(kind(j) == 1, v >= 0))
+                      z3.Implies(kind(j) == 1, v >= 0),
+                      z3.Implies(z3.And(kind(j) == 2, nn(j), lo(j) + w(j) > 0), v >= 0))
 
     def havoc_tuning(self):
         """fields that submit_accept_prob / adjust_sigma / the proposals may change"""
